@@ -275,8 +275,21 @@ fn exec_inner(s: &mut CrdtSession, toks: &[&str], enc: TextEncoding) -> Vec<Stri
         "crdt.apply" => {
             let cs: Vec<Change> = if toks[2] == "-" { vec![] } else { toks[2].split(',').map(|h| s.changes.get(h).expect("unknown change").clone()).collect() };
             let d = s.replicas.get_mut(toks[1]).unwrap();
+            let before = (show_doc(d, None, enc), d.get_heads(), d.get_missing_deps(&[]), d.clone().save());
             let r = d.apply_changes(cs);
-            vec![format!("{} {}", res_str(&r), summary(d))]
+            let mut res = vec![format!("{} {}", res_str(&r), summary(d))];
+            if r.is_err() {
+                // C06 direct oracle: a failed call leaves heads, state and pending queue unchanged
+                let after = (show_doc(d, None, enc), d.get_heads(), d.get_missing_deps(&[]), d.clone().save());
+                if before.0 != after.0 || before.1 != after.1 {
+                    res.push("! C06 sig=apply-error-changed-state apply_changes returned an error but changed heads or state".to_string());
+                } else if before.2 != after.2 || before.3 != after.3 {
+                    let dup = matches!(r, Err(automerge::AutomergeError::DuplicateSeqNumber(..)));
+                    res.push(format!("! C06 sig={} apply_changes returned an error but changed the pending queue (get_missing_deps / saved orphans differ)",
+                        if dup { "dupseq-error-prunes-queue" } else { "apply-error-changed-queue" }));
+                }
+            }
+            res
         }
         "crdt.local" => {
             let d = s.replicas.get_mut(toks[1]).unwrap();
@@ -490,6 +503,13 @@ fn exec_inner(s: &mut CrdtSession, toks: &[&str], enc: TextEncoding) -> Vec<Stri
             let h = d.commit_with(automerge::transaction::CommitOptions::default().with_time(0));
             vec![match h { Some(_) => "ok".to_string(), None => "none".to_string() }]
         }
+        // extension engines sharing this session's replicas (each in its own file)
+        #[cfg(feature = "e_richtext")]
+        c if c.starts_with("crdt.rt.") => super::richtext::exec(s, toks, enc),
+        #[cfg(feature = "e_patches")]
+        c if c.starts_with("crdt.patch.") => super::patches::exec(s, toks, enc),
+        #[cfg(feature = "e_crdtx")]
+        c if c.starts_with("crdt.x.") => super::crdtx::exec(s, toks, enc),
         _ => vec!["unknown-cmd".into()],
     }
 }
